@@ -111,7 +111,8 @@ def walk_block(ctx, vb, attr, lines, hook_extra, attr_value=None, max_states=400
                 first[0] = False
                 return False
             rep.accepted = True
-            rep.ends.append(env.get(-6, CW.const(0))[1])
+            # (violations built on this path, content-line indices whose position was asked for on it)
+            rep.ends.append((env.get(-6, CW.const(0))[1], frozenset(i[1] for i in env.get(-5, ("tuple", ()))[1] if CW.is_const(i))))
             return True
         return False
     try:
